@@ -128,10 +128,16 @@ func (wg *WeightedAuthorizationModelGraph) AssignWeights() error {
 	ancestorPath := make([]*WeightedAuthorizationModelEdge, 0)
 	tupleCycleDependencies := make(map[string][]*WeightedAuthorizationModelEdge)
 
+	if handled, err := wg.verifAssignWeightsForced(); handled {
+		return err
+	}
+
 	for node := range wg.nodes {
 		if visited[node] {
 			continue
 		}
+
+		verifObserveRoot(wg, node)
 
 		tupleCyles, err := wg.calculateNodeWeight(node, visited, ancestorPath, tupleCycleDependencies)
 		if err != nil {
